@@ -541,4 +541,48 @@ Section Model.
   (* a (signed) reference in a cell resolved against the dictionary *)
   Definition resolve_ref (r : Z) (table : list (Z * list (msurf T * Z))) : res (list (msurf T * Z)) :=
     lookup (Z.abs r) table.
+  (* ---------------- CellConversion.pot_transform / apply_trcl ---------------- *)
+  (* the cell expression after parsing: signed surface leaves, cell references,
+     '^' complement nodes, '*' / ':' operators *)
+  Inductive gop := GInter | GUnion.
+  Inductive gtree := GSurf (n : Z) | GCell (n : Z) | GCompl (n : Z) | GOp (op : gop) (args : list gtree).
+
+  (* conversion state: the last surface key handed out (new_surf_key) and
+     dic_surf_mcnp *)
+  Definition pstate := (Z * list (Z * list (msurf T * Z)))%type.
+
+  (* one surface leaf: a NEW surface per transformed leaf, holding every part
+     of the old one moved by the transformation; the sign of the leaf is kept *)
+  Definition pot_leaf (tr : list T) (n : Z) (st : pstate) : res (gtree * pstate) :=
+    bind (lookup (Z.abs n) (snd st)) (fun parts =>
+    bind (tr_all tr parts) (fun parts' =>
+      let k := (fst st + 1)%Z in
+      Ok (GSurf (if (0 <=? n)%Z then k else (- k)%Z), (k, (k, parts') :: snd st)))).
+
+  (* pot_transform: complements stay, operators are walked left to right, cell
+     references are outside this model (cell_transform recursion): EType *)
+  Fixpoint pot_transform (tr : list T) (t : gtree) (st : pstate) : res (gtree * pstate) :=
+    match tr with
+    | [] => Ok (t, st)
+    | _ =>
+      match t with
+      | GSurf n => pot_leaf tr n st
+      | GCell _ => Err EType
+      | GCompl n => Ok (GCompl n, st)
+      | GOp op args =>
+          let fix walk (l : list gtree) (st : pstate) : res (list gtree * pstate) :=
+            match l with
+            | [] => Ok ([], st)
+            | a :: r =>
+                bind (pot_transform tr a st) (fun ast =>
+                bind (walk r (snd ast)) (fun rst => Ok (fst ast :: fst rst, snd rst)))
+            end in
+          bind (walk args st) (fun r => Ok (GOp op (fst r), snd r))
+      end
+    end.
+
+  (* apply_trcl: the cell's TRCL list, one after the other *)
+  Definition apply_trcl (trcls : list (list T)) (t : gtree) (st : pstate) : res (gtree * pstate) :=
+    fold_left (fun acc tr => bind acc (fun ts => pot_transform tr (fst ts) (snd ts))) trcls (Ok (t, st)).
+
 End Model.
